@@ -50,6 +50,9 @@ def _line(draw, pool):
         return draw(st.sampled_from(WORD_RUNS))
     if k == 3 and draw(st.sampled_from(range(12))) == 6:
         return w + " \x00"          # a NUL character (valid JSON; git and diff3 call such text binary)
+    if k == 4 and draw(st.sampled_from(range(4))) == 2:
+        # characters outside the Basic Multilingual Plane (one code point in Python, two UTF-16 code units in JavaScript)
+        return draw(st.sampled_from(["## Results \U0001F389 (draft)", "## Results \U0001F389 (final)", "x = '\U0001D465' + 1", "\U0001F600 " + w, w + " \U0001F680"]))
     if k == 0:
         w = w + draw(st.sampled_from([" #1", " + 1", "  ", "x", " # TODO"]))
     elif k == 1:
